@@ -1,4 +1,4 @@
-use super::{CallError, FunctionMap, check};
+use super::{FunctionMap, check};
 use crate::Scope;
 use crate::css::{CssString, Value};
 use crate::value::ListSeparator;
@@ -62,7 +62,8 @@ pub fn create_module() -> Scope {
                 st.chars().skip(start_at).take(end_at - start_at).collect();
             Ok(CssString::new(part, string.quotes()).into())
         } else {
-            Err(CallError::msg(format!("Bad indexes: {start_at}..{end_at}")))
+            // An empty range is an empty string.
+            Ok(CssString::new(String::new(), string.quotes()).into())
         }
     });
     def!(f, split(string, separator, limit = b"null"), |s| {
